@@ -41,7 +41,7 @@ def gen_cases(tier, seed):
                 gid += 1
     # the bound must not depend on what the files look like or on other options either
     variants = [("empty-files", [], "empty"), ("options", ["--fsync", "--backup", "numbered", "--gitignore"], "mixed"), ("deref+links", ["-L"], "links"),
-                ("sparse-files", ["--no-perms", "--ownership"], "sparse"), ("many-dirs", [], "dirs")]
+                ("sparse-files", ["--no-perms", "--ownership"], "sparse"), ("many-dirs", [], "dirs"), ("links+specials", ["--ownership"], "nodes"), ("many-sources", [], "sources")]
     for vi, (vname, extra, content) in enumerate(variants):
         for driver in ("parblock", "parfile"):
             if tier == "quick" and (vi + (driver == "parfile")) % 2:
@@ -65,7 +65,7 @@ def run_case(case):
         src = os.path.join(b(root), b"src")
         os.makedirs(src)
         blk = tree.body(7, 3 * bs)
-        ndirs = max(1, n // 250) if case.get("content") != "dirs" else n // 2
+        ndirs = max(1, n // 250) if case.get("content") not in ("dirs", "sources") else (n // 2 if case.get("content") == "dirs" else min(400, n // 5))
         for d in range(ndirs):
             # the many-dirs variant nests every tenth directory ten levels deep
             os.makedirs(os.path.join(src, b"d%03d" % d))
@@ -74,6 +74,13 @@ def run_case(case):
         for i in range(n):
             size = 0 if content == "empty" else r.choice([1, 100, bs - 1, bs]) if content == "oneblock" else r.choice([0, 1, bs, bs + 1, 2 * bs + 5, 3 * bs])
             fp = os.path.join(src, b"d%03d" % (i % ndirs), b"f%05d" % i)
+            if content == "nodes" and i % 2:
+                # symlinks, FIFOs and sockets: nothing of theirs may stay open either
+                if i % 4 == 1:
+                    os.symlink(b"f%05d" % (i - 1), fp)
+                else:
+                    os.mknod(fp, (0o010000 if i % 8 == 3 else 0o140000) | 0o644)
+                continue
             if content == "links" and i % 3 == 2:
                 os.symlink(b"../d%03d/f%05d" % ((i - 1) % ndirs, i - 1), fp)       # with -L a link becomes another regular file
                 continue
@@ -95,6 +102,10 @@ def run_case(case):
         plan.update({"log_mode": "none", "nofile": 1024, "max_steps": 200 * n + 200000, "wall_ms": 600000, "cpu_ms": 300000, "pct_horizon": 2000,
                      "sched_cap_us": 2000})
         args = ["--driver", case["driver"], "-w", str(case["workers"]), "--block-size", str(bs)] + case.get("extra", []) + ["-r", "src", "dst"]
+        if content == "sources":
+            # hundreds of sources on the command line (every directory of the tree is named individually)
+            os.makedirs(os.path.join(b(root), b"dst"))
+            args = args[:-2] + ["src/d%03d" % d for d in range(ndirs)] + ["dst"]
         run = core.run_xcp(sb, args, plan)
         if run.verdict != "exited":
             res["inconc"].append("run-" + run.verdict)
@@ -110,6 +121,8 @@ def run_case(case):
             res["viol"].append({"sig": "%s:emfile" % case["driver"], "what": "%d system call(s) failed with EMFILE/ENFILE; %s" % (s["emfile"], tag)})
         if run.exit0:
             cnt = sum(len([f for f in fs if not f.endswith(b"~")]) for _, _, fs in os.walk(os.path.join(b(root), b"dst")))
+            if content == "nodes":
+                cnt = n
             if cnt != n:
                 res["viol"].append({"sig": "%s:files-missing" % case["driver"], "what": "exit 0 but %d of %d files in the destination; %s" % (cnt, n, tag)})
         res["data"] = {"group": case["group"], "n": n, "peak": s["fd_peak"], "driver": case["driver"], "workers": case["workers"], "sname": case["sname"],
